@@ -285,10 +285,10 @@ def go(ops):
 HBF = r'''
 def hb___A_____B__(o3: int, o4: int) -> bool:
     """
-    pre: 0 <= o3 < NOPS and 0 <= o4 < NOPS
+    pre: 0 <= o3 < NOPS and __O4PRE__
     post: _
     """
-    return go([__A__, __B__, o3, o4])
+    return go([__A__, __B__, o3, o4][:__LEN__])
 '''
 
 HBX = r'''
@@ -479,7 +479,8 @@ def run(ctx: Ctx) -> None:
     conds = []
     for a in range(8):
         for b in range(8):
-            src += HBF.replace("__A__", str(a)).replace("__B__", str(b))
+            src += (HBF.replace("__A__", str(a)).replace("__B__", str(b)).replace("__O4PRE__", "0 <= o4 < NOPS" if thorough else "o4 == 0")
+                    .replace("__LEN__", "4" if thorough else "3"))
             conds.append(Cond(f"hb_{a}_{b}", "confirm", 600, keyfn=_key_from_replay))
     src += HBX
     conds.append(Cond("hb_twin", "refute", 60))
@@ -499,7 +500,7 @@ def run(ctx: Ctx) -> None:
                               "core_tasks.recover_pending_invocations/recover_running_invocations (line-level twins) + set_invocation_status/reroute_invocations twins"]
     ctx.bounds = {"sql": "one invocation row (status in {PENDING, RUNNING, other}, owner in {NULL, r1, r2}), two heartbeat rows (present/absent), clock, limits: unbounded reals",
                   "mem scans": "2 invocations, 2 runners, symbolic integer-valued timestamps/heartbeats/clock in [-1e12, 1e12], limits in [0, 1e9]: every boundary (age == limit) is exact, no rounding",
-                  "heartbeat histories": "4 ops over 8 letters (heartbeat r1/r2 with either atomic-service flag, clock advance 0/30/60/61 s; timeout 60 s)",
+                  "heartbeat histories": "3 ops (thorough: 4) over 8 letters (heartbeat r1/r2 with either atomic-service flag, clock advance 0/30/60/61 s; timeout 60 s)",
                   "recovery run": f"2-3 invocations, any subset fresh, owner moves one of them (PENDING->RUNNING/KILLED or RUNNING->SUCCESS/KILLED) at preemption point 0..{kmax}; both backends"}
     ctx.stubs += ["mem scans run on a SimpleNamespace `self` with symbolic integer-valued instants (the claim is in exact arithmetic; one rounding of `now` in doubles is outside it)", "clock = CounterClock in both orchestrator modules",
                   "status timestamps forced by direct state construction", "CoopLock, sqlite timeout=0, sync history"]
